@@ -10,13 +10,14 @@ EXTENDS Integers, Sequences, FiniteSets, TraceKit
 tvars == << l, rej >>
 
 \* protocol state threaded through the event list: << cache, holder, phase of the holder, violations >>
-\* phase: "locked" -> ("hit" | "miss" -> "published") -> released
+\* phase: "locked" -> ("hit" | "miss" -> "computed" -> "published") -> released
 StepOK(st, ev) ==
   LET p == ev[1] name == ev[2] y == ev[3] IN
   CASE name = "acquired"  -> st.holder = 0
     [] name = "hit"       -> st.holder = p /\ st.phase = "locked" /\ st.cache = y /\ st.req = y
     [] name = "miss"      -> st.holder = p /\ st.phase = "locked" /\ st.cache # y /\ st.req = y
-    [] name = "published" -> st.holder = p /\ st.phase = "miss" /\ st.req = y
+    [] name = "computed"  -> st.holder = p /\ st.phase = "miss" /\ st.req = y
+    [] name = "published" -> st.holder = p /\ st.phase = "computed" /\ st.req = y
     [] name = "released"  -> st.holder = p /\ st.phase \in {"hit", "published"} /\ st.req = y
     [] OTHER -> FALSE
 StepTo(st, ev) ==
@@ -24,6 +25,7 @@ StepTo(st, ev) ==
   CASE name = "acquired"  -> [st EXCEPT !.holder = p, !.phase = "locked", !.req = y]
     [] name = "hit"       -> [st EXCEPT !.phase = "hit"]
     [] name = "miss"      -> [st EXCEPT !.phase = "miss"]
+    [] name = "computed"  -> [st EXCEPT !.phase = "computed"]
     [] name = "published" -> [st EXCEPT !.phase = "published", !.cache = y]
     [] name = "released"  -> [st EXCEPT !.holder = 0, !.phase = "none"]
     [] OTHER -> st
